@@ -264,8 +264,9 @@ Inductive rowkind :=
 | RDrop     (* the row is rejected by the schema check, after its measurement was resolved and before it is routed *)
 | RSkip.    (* the row is rejected before its measurement is looked at (timestamp outside the retention window) *)
 Record brow := { r_m : mcfg; r_kind : rowkind; r_p : point }.
-Record bstate := { b_sg : option group; b_mst : option str; b_sk : option (list str) }.
-Definition b_empty : bstate := {| b_sg := None; b_mst := None; b_sk := None |}.
+Record bstate := { b_sg : option group; b_mst : option str; b_sk : option (list str);
+                   b_asis : bool (* the remembered alive-shard list (ctx.aliveShardIdxes) is non-empty *) }.
+Definition b_empty : bstate := {| b_sg := None; b_mst := None; b_sk := None; b_asis := false |}.
 
 (* use_cache = true: today's code; false: the shard key is looked up for every row *)
 Definition batch_step (use_cache : bool) (st : bstate) (r : brow) : bstate * option (group * shard) :=
@@ -273,20 +274,27 @@ Definition batch_step (use_cache : bool) (st : bstate) (r : brow) : bstate * opt
   let same_mst := match b_mst st with Some n => str_eqb n (c_mst c0) | None => false end in
   match r_kind r with
   | RSkip => (st, None)
-  | RDrop => ({| b_sg := b_sg st; b_mst := Some (c_mst c0); b_sk := b_sk st |}, None)
+  | RDrop => ({| b_sg := b_sg st; b_mst := Some (c_mst c0); b_sk := b_sk st; b_asis := b_asis st |}, None)
   | RRoute =>
       let t := p_time (r_p r) in
-      let hit := match b_sg st with Some g => g_contains g t | None => false end in
+      (* sameSg: the remembered group takes the timestamp and an alive list was stored for it (a row that failed while its
+         shard key was built leaves the list empty) *)
+      let same_sg := match b_sg st with Some g => g_contains g t | None => false end && b_asis st in
       match pick_group (b_sg st) (c_groups c0) t with
-      | None => ({| b_sg := None; b_mst := Some (c_mst c0); b_sk := b_sk st |}, None)
+      | None => ({| b_sg := None; b_mst := Some (c_mst c0); b_sk := b_sk st; b_asis := b_asis st |}, None)
           (* no group: the real loop returns the error and the batch ends; the model goes on without a cached group *)
       | Some g =>
-          let sk := if use_cache && hit && same_mst then b_sk st else sk_scan (m_vers (r_m r)) (g_id g) in
+          let sk := if use_cache && same_sg && same_mst then b_sk st else sk_scan (m_vers (r_m r)) (g_id g) in
           match sk with
-          | None => ({| b_sg := Some g; b_mst := Some (c_mst c0); b_sk := None |}, None)
+          | None => ({| b_sg := Some g; b_mst := Some (c_mst c0); b_sk := None; b_asis := b_asis st |}, None)
           | Some k =>
-              ({| b_sg := Some g; b_mst := Some (c_mst c0); b_sk := Some k |},
-               match route_in (set_sk c0 k) g (r_p r) with Some s => Some (g, s) | None => None end)
+              match wkey (set_sk c0 k) (r_p r) with
+              | None => ({| b_sg := Some g; b_mst := Some (c_mst c0); b_sk := Some k; b_asis := b_asis st |}, None)
+              | Some _ =>
+                  ({| b_sg := Some g; b_mst := Some (c_mst c0); b_sk := Some k;
+                      b_asis := if same_sg then true else match g_alive g with [] => false | _ => true end |},
+                   match route_in (set_sk c0 k) g (r_p r) with Some s => Some (g, s) | None => None end)
+              end
           end
       end
   end.
